@@ -61,6 +61,7 @@ pub fn all_scenarios() -> Vec<&'static dyn Scenario> {
     v.push(&gm::GM);
     v.push(&gm::DIRTY_GM);
     v.push(&mem::DIRTY_SLICE);
+    v.push(&mem::DIRTY_RACE);
     v.push(&hotplug::SEQ);
     v.push(&hotplug::CONC);
     v.push(&build::BUILD);
@@ -155,7 +156,11 @@ pub fn checks() -> Vec<Check> {
     for (prop, what) in [("C05", "every byte whose value changed is reported dirty by the owning region's bitmap at that region's own offset (diff-driven); a failed descriptor read leaves its whole target dirty"), ("C16", "the bitmap after an operation is exactly the bitmap before it plus the pages overlapping the bytes written (reads, loads, queries, derivations, stream writes out of memory and rejected requests mark nothing; only a failed descriptor read may mark its whole target)")] {
         v.push(Check {
             prop,
-            parts: vec![Part { name: gm::DIRTY_GM.name(), xen: false, quick: 500_000, thorough: 20_000_000 }, Part { name: mem::DIRTY_SLICE.name(), xen: false, quick: 500_000, thorough: 20_000_000 }],
+            parts: if prop == "C05" {
+                vec![Part { name: gm::DIRTY_GM.name(), xen: false, quick: 500_000, thorough: 20_000_000 }, Part { name: mem::DIRTY_SLICE.name(), xen: false, quick: 500_000, thorough: 20_000_000 }, Part { name: mem::DIRTY_RACE.name(), xen: false, quick: 500_000, thorough: 20_000_000 }]
+            } else {
+                vec![Part { name: gm::DIRTY_GM.name(), xen: false, quick: 500_000, thorough: 20_000_000 }, Part { name: mem::DIRTY_SLICE.name(), xen: false, quick: 500_000, thorough: 20_000_000 }]
+            },
             rule: if prop == "C05" {
                 "runs are seeded histories of up to 10 write-type and read-type operations at guest-memory, region and derived-slice level (written data is the complement of the current contents), descriptor reads with injected syscall results, scripted readers that fail part-way, interleaved with bitmap resets/harvests, on 1-3 regions with real AtomicBitmaps (plain or Option) of page sizes 1, 2, 3, 16, 64, 4096 or larger than the region; oracle: every byte whose value changed is dirty in the owning region's bitmap, and a failed descriptor read leaves its whole target dirty; distinct = distinct event-log hash; non-trivial = at least one operation succeeded and one was rejected or cut off"
             } else {
